@@ -150,7 +150,7 @@ def check_unique(ctx):
                 kinds.append(v)
             for k in kinds:
                 ok = isinstance(k, (ast.Dict, ast.Set, ast.SetComp, ast.DictComp)) or \
-                    (isinstance(k, ast.Call) and isinstance(k.func, ast.Name) and k.func.id in ('set', 'dict', 'frozenset'))
+                    (isinstance(k, ast.Call) and U(k.func).split('.')[-1] in ('set', 'dict', 'frozenset', 'defaultdict', 'Counter', 'OrderedDict'))
                 if not ok and bad is None:
                     bad = 'returns `%s`' % (U(k)[:60] if k is not None else '?')
         ctx.check('R-CAND/unique', f, 'return kind', bad is None and n > 0,
@@ -574,6 +574,78 @@ def check_size_counts(ctx):
     ctx.floor('R-CAND/size-count', n, 4, 'token counts of the size filter')
 
 
+def check_collect(ctx):
+    """what the probe of the index yields reaches the result: SizeFilter adds every probed row, unconditionally;
+    OverlapFilter counts every occurrence of a probed row (overlap = number of shared tokens), starting from 0"""
+    repo = ctx.repo
+    # ---- SizeFilter
+    f = repo.fn(FILTERS['SizeFilter'][0], 'SizeFilter.find_candidates')
+    view = view_of(f)
+    rets = [n for n in walk_own(f.node) if isinstance(n, ast.Return) and isinstance(n.value, ast.Name)]
+    final = f.node.body[-1]
+    res = final.value.id if isinstance(final, ast.Return) and isinstance(final.value, ast.Name) else None
+    loops = [n for n in walk_own(f.node) if isinstance(n, ast.For) and 'probe(' in U(n.iter)]
+    ok = False
+    why = 'the loop over size_index.probe(..) was not found'
+    if len(loops) == 1 and res is not None:
+        lp = loops[0]
+        var = lp.target.id if isinstance(lp.target, ast.Name) else None
+        adds = [st for st in lp.body if isinstance(st, ast.Expr) and isinstance(st.value, ast.Call)
+                and isinstance(st.value.func, ast.Attribute) and st.value.func.attr in ('add', 'append')
+                and U(st.value.func.value) == res and len(st.value.args) == 1 and U(st.value.args[0]) == var]
+        ok = bool(adds)
+        why = 'a row found under an admissible size is not added to the result `%s` on every path' % res
+    elif res is not None:
+        # candidates.update(size_index.probe(size)) / set comprehension forms
+        ups = [c for c in repo.calls_in(f) if isinstance(c.func, ast.Attribute) and c.func.attr == 'update'
+               and U(c.func.value) == res and c.args and 'probe(' in U(c.args[0])]
+        comp = [n for n in ast.walk(f.node) if isinstance(n, (ast.SetComp, ast.ListComp)) and 'probe(' in U(n)
+                and not any(g.ifs for g in n.generators)]
+        ok = bool(ups) or bool(comp)
+    ctx.check('R-CAND/collect', f, 'size candidates', ok, why, loops[0] if loops else f.node,
+              sample='every row of an admissible size is a candidate')
+    # ---- OverlapFilter
+    g = repo.fn(FILTERS['OverlapFilter'][0], 'OverlapFilter.find_candidates')
+    gv = view_of(g)
+    final = g.node.body[-1]
+    res = final.value.id if isinstance(final, ast.Return) and isinstance(final.value, ast.Name) else None
+    stores = [n for n in walk_own(g.node) if isinstance(n, (ast.Assign, ast.AugAssign))
+              and isinstance((n.targets[0] if isinstance(n, ast.Assign) else n.target), ast.Subscript)
+              and U((n.targets[0] if isinstance(n, ast.Assign) else n.target).value) == res]
+    ok = False
+    why = 'the count store `%s[cand] = ...` was not found' % res
+    if len(stores) == 1:
+        st = stores[0]
+        tgt = st.targets[0] if isinstance(st, ast.Assign) else st.target
+        key = U(tgt.slice)
+        loop = [n for n in walk_own(g.node) if isinstance(n, ast.For) and any(x is st for x in ast.walk(n)) and 'probe(' in U(n.iter)]
+        in_probe_loop = bool(loop) and isinstance(loop[-1].target, ast.Name) and loop[-1].target.id == key
+        if isinstance(st, ast.AugAssign):
+            init = [d for d in gv.reaching(res, st) if d.value is not None]
+            zero_default = any(isinstance(d.value, ast.Call) and U(d.value.func).endswith('defaultdict') and d.value.args
+                               and U(d.value.args[0]) == 'int' for d in init) or \
+                any(isinstance(d.value, ast.Call) and U(d.value.func).endswith('Counter') for d in init)
+            ok = in_probe_loop and isinstance(st.op, ast.Add) and isinstance(st.value, ast.Constant) and st.value.value == 1 and zero_default
+        else:
+            try:
+                norm = Norm()
+                prev = [x for x in ast.walk(st.value) if isinstance(x, ast.Call) and isinstance(x.func, ast.Attribute)
+                        and x.func.attr == 'get' and U(x.func.value) == res and len(x.args) == 2 and U(x.args[0]) == key]
+                ok = in_probe_loop and len(prev) == 1 and isinstance(prev[0].args[1], ast.Constant) and prev[0].args[1].value == 0
+                if ok:
+                    d = (norm.visit(st.value) - norm.visit(prev[0])).as_const()
+                    ok = d == 1
+            except Unsupported:
+                ok = False
+        c = Conds(g.node, None).of(st)
+        unconditional = not [1 for _, e, pol in literals(c) if 'probe' not in U(e) and 'index' not in U(e)]
+        ok = ok and unconditional
+        why = 'the overlap of a probed row is updated by `%s` (under `%s`); it must be counted up by exactly 1 from 0 for every ' \
+              'shared token' % (U(st)[:70], show(c)[:60])
+    ctx.check('R-CAND/collect', g, 'overlap count', ok, why, stores[0] if stores else g.node,
+              sample='%s[cand] = %s.get(cand, 0) + 1' % (res, res))
+
+
 def check_early_exits(ctx):
     """find_candidates may give up before the probe loop only for a reason that provably leaves no candidate: the index
     is empty, the probe has no tokens, (OverlapFilter) the probe has fewer tokens than the required overlap,
@@ -644,15 +716,25 @@ def check_probe_side(ctx):
             ctx.check('R-CAND/probe-side', f, 'index of %s' % U(c.func)[:40], oki,
                       'the probed index `%s` is not built over the left table (%s)' % (U(index)[:40], U(ix)[:100]), c,
                       sample='index %s over the left table' % U(index)[:40])
+            # ... and it has been built: a `<index>.build(..)` call dominates the probe
+            if isinstance(index, ast.Name):
+                builds = [b for b in repo.calls_in(f) if isinstance(b.func, ast.Attribute) and b.func.attr == 'build'
+                          and isinstance(b.func.value, ast.Name) and b.func.value.id == index.id]
+                okb = any(view.dominates(view.stmt_of(b), st) for b in builds)
+                ctx.check('R-CAND/probe-side', f, 'build of %s' % index.id, okb,
+                          'the index `%s` is probed but `%s.build(..)` does not run on every path before the probe: an empty '
+                          'index yields no candidates at all' % (index.id, index.id), c, sample='%s.build(..) dominates the probe' % index.id)
     ctx.floor('R-CAND/probe-side', n, 7, 'find_candidates call sites')
 
 
-def run(ctx, slices=True, unique=True, provenance=True, window=True, prune=True, consume=True, probe=True, early=True, sizes=False):
+def run(ctx, slices=True, unique=True, provenance=True, window=True, prune=True, consume=True, probe=True, early=True, sizes=False, collect=None):
     ctx.group('R-CAND')
     if probe:
         check_probe_side(ctx)
     if early:
         check_early_exits(ctx)
+    if collect if collect is not None else early:
+        check_collect(ctx)
     if sizes:
         check_size_counts(ctx)
     if slices:
